@@ -76,6 +76,7 @@ type SegStore struct {
 	segbaseDir            string
 	suffix                uint64
 	lastUpdated           time.Time
+	removed               bool // removeStaleSegments deleted this segstore from allSegStores; guarded by Lock
 	lastWipFlushTime      time.Time
 	VirtualTableName      string
 	RecordCount           int
